@@ -19,6 +19,7 @@ META = dict(
     required_hits=["target_product_compared", "evolve_calls", "parts_stored"],
     max_inconclusive_frac=0.25,
 )
+META["level_text"] += ' A third of the cases are preceded, in the same process, by a decoy solve with the same theory and another starting point.'
 
 RT = 1e-12
 
